@@ -23,7 +23,8 @@ META = dict(
     bounds=dict(quick="features/transcripts with <=2 blocks, CDS with 1 exon (lengths 5..7) or 2 exons (3 length vectors) x start frames 0..2 "
                       "(consistent frames) and one frameshift vector, both strands; chunk of length 12 at a SYMBOLIC window start; first start and gaps symbolic",
                 thorough="3-exon CDS, chunk lengths 9 and 12, more length vectors"),
-    outside=">3 exons; chunk lengths other than stated (the chunk's sequence string must be concrete); minus-strand chunks (C04)",
+    outside=">3 exons; chunk lengths other than stated (the chunk's sequence string must be concrete); minus-strand chunks beyond the stated legs (UTRs, "
+            "chunk-relative accessors and conversions, sequence answers, position conversions; lift-over itself is C04)",
     stubs=["S1", "S2", "S3", "S4", "S5", "S6", "S11"],
     assumptions=["reading-frame model harness/cdsmodel.py", "twin construction: same interval built without parent / on the whole chromosome / on the chunk"],
 )
